@@ -118,11 +118,13 @@ Starting(ts) ==
 \* effects of a task of a direct workflow reaching a final state
 Route(t, s) ==
   LET w == WfOf(t)
-      rs == IF s = "SKIPPED" THEN "SUCCESS" ELSE s       \* a skipped task continues along its on-success transitions
-      u == UpToCommand(Targets(t, rs))
+      \* a skipped task continues along its on-success transitions only (on-skip is absent in these programs; what is
+      \* documented for a skipped task is on-skip / on-success, not on-complete)
+      ts == IF s = "SKIPPED" THEN LET c == Fired(D.tasks[t].succ) IN [i \in 1..Len(c) |-> c[i].to] ELSE Targets(t, s)
+      u == UpToCommand(ts)
       live == wfs[w] = "RUNNING"
       b == Starting(IF live THEN {x \in u.tasks : st[x] = "none"} ELSE {})
-  IN /\ nx' = [nx EXCEPT ![t] = Rng(Targets(t, rs)) \cap Names]
+  IN /\ nx' = [nx EXCEPT ![t] = Rng(ts) \cap Names]
      /\ st' = [b.st EXCEPT ![t] = s]
      /\ wfs' = [b.wfs EXCEPT ![w] = IF live /\ u.cmd = "fail" THEN "ERROR" ELSE IF live /\ u.cmd = "succeed" THEN "SUCCESS" ELSE @]
      /\ UNCHANGED pid
